@@ -220,6 +220,18 @@ def paging_both_fields_input():
     return request([f], 'transport=grpc+rest,metadata'), None
 
 
+# the mixin YAML with several additional bindings per Operations rule (their order is part of the emitted REST transports)
+MIXIN_YAML_BINDINGS = apis.MIXIN_YAML.replace(
+    "    get: '/v1/{{name=operations/*}}'\n",
+    "    get: '/v1/{{name=operations/*}}'\n    additional_bindings:\n    - get: '/v1/{{name=projects/*/operations/*}}'\n"
+    "    - get: '/v1/{{name=projects/*/locations/*/operations/*}}'\n    - get: '/v1/{{name=folders/*/operations/*}}'\n"
+    "    - get: '/v1/{{name=organizations/*/operations/*}}'\n").replace(
+    "    get: '/v1/{{name=operations}}'\n",
+    "    get: '/v1/{{name=operations}}'\n    additional_bindings:\n    - get: '/v1/{{name=projects/*}}/operations'\n"
+    "    - get: '/v1/{{name=projects/*/locations/*}}/operations'\n    - get: '/v1/{{name=folders/*}}/operations'\n")
+assert MIXIN_YAML_BINDINGS.count('additional_bindings') == 2
+
+
 def inputs(thorough):
     ok_edits = [n for n in edits.EDIT_NAMES if n not in ('subpkg_service', 'recursive_oneof_first', 'subpkg_types')]
     out = {
@@ -232,7 +244,7 @@ def inputs(thorough):
         'max-state': (edits.build(ok_edits, 'transport=grpc+rest,metadata'), None),
         'baseline+handwritten-samples': (apis.baseline('transport=grpc,samples=@samples.yaml@'), {'samples.yaml': SAMPLE_CONFIG}),
         'baseline+mixins': (apis.baseline('transport=grpc+rest,metadata,service-yaml=@svc.yaml@'),
-                            {'svc.yaml': apis.MIXIN_YAML.format(service='acme.lib.v1.Library')}),
+                            {'svc.yaml': MIXIN_YAML_BINDINGS.format(service='acme.lib.v1.Library')}),
         'baseline+two-sample-configs': (apis.baseline('transport=grpc,autogen-snippets=false,samples=@samples.yaml@,samples=@tour.yaml@'),
                                         {'samples.yaml': SAMPLE_CONFIG, 'tour.yaml': SAMPLE_CONFIG_B}),
         'paging-both-fields': paging_both_fields_input(),
